@@ -335,3 +335,19 @@ def enum_paths(cfg, start_block, stop_blocks, within=None, max_paths=2000):
 
     rec(start_block, [], {start_block})
     return out
+
+
+def paths_to(cfg, start_block, nid, max_paths=5000):
+    """Item lists of the acyclic paths from the top of start_block to the event `nid`
+    (the events of its block that precede it are included)."""
+    p = cfg.pos(nid)
+    if p is None:
+        return []
+    out = []
+    tail = [("ev", e) for e in cfg.blocks[p[0]].ev[:p[1]]]
+    if start_block == p[0]:
+        return [tail]
+    for items, end in enum_paths(cfg, start_block, {p[0]}, max_paths=max_paths):
+        if end == p[0]:
+            out.append(items + tail)
+    return out
